@@ -58,6 +58,7 @@ class DevA(Driver):
                 "V3", rule="AnyOfMany", elements=dict(first=properties.Switch("A"), second=properties.Switch("B"))
             ),
             blob=properties.BLOBVector("V4", elements=dict(first=properties.BLOB("A"), second=properties.BLOB("B"))),
+            hidden=properties.TextVector("V5", enabled=False, elements=dict(first=properties.Text("A"), second=properties.Text("B"))),
         ),
     )
 
